@@ -124,6 +124,14 @@ func (c *bctx) str0(t *Term) *bvec {
 	case "str":
 		return litVec(t.sval)
 	case "var":
+		if fl, ok := fixedLenOf(t.name); ok {
+			v := &bvec{n: mkInt(fl), ch: make([]*Term, fl)}
+			for i := range v.ch {
+				v.ch[i] = mkVar(fmt.Sprintf("%sch%d.%s", c.prefix, i, t.name), SInt)
+				c.side = append(c.side, mkGe(v.ch[i], mkInt(0)), mkLe(v.ch[i], mkInt(255)))
+			}
+			return v
+		}
 		v := &bvec{n: mkVar(c.prefix+"len."+t.name, SInt), ch: make([]*Term, c.L)}
 		c.side = append(c.side, mkGe(v.n, mkInt(0)), mkLe(v.n, mkInt(int64(c.L))))
 		for i := range v.ch {
